@@ -739,7 +739,9 @@ fn gen_concurrent(case_seed: u64, tier: Tier, id: &str) -> Plan {
 // ---------------------------------------------------------------- C10
 
 fn gen_c10(case_seed: u64, case: u64, tier: Tier) -> Plan {
-	if case % 4 == 3 {
+	// (chosen by the case seed, not the case number: the number modulo 4 is constant per
+	// worker, which would put all the slow crash cases on four of the sixteen workers)
+	if case_seed % 4 == 3 {
 		return super::crash::gen_c10_crash(case_seed, case, tier);
 	}
 	let mut rng = Rng::new(case_seed);
